@@ -45,6 +45,12 @@ func V2CreateInput(spec *TableSpec) *v2ddb.CreateTableInput { return v2CreateInp
 
 func v2CreateInput(spec *TableSpec) *v2ddb.CreateTableInput {
 	in := &v2ddb.CreateTableInput{TableName: aws.String(spec.Name), KeySchema: v2KeySchema(spec.Hash, spec.Range)}
+	if spec.RawKeySchema != nil {
+		in.KeySchema = nil
+		for _, el := range spec.RawKeySchema {
+			in.KeySchema = append(in.KeySchema, v2types.KeySchemaElement{AttributeName: aws.String(el[0]), KeyType: v2types.KeyType(el[1])})
+		}
+	}
 	ad := specAttrDefs(spec)
 	for _, n := range ad.order {
 		in.AttributeDefinitions = append(in.AttributeDefinitions, v2types.AttributeDefinition{AttributeName: aws.String(n), AttributeType: v2types.ScalarAttributeType(ad.typ[n])})
